@@ -1,6 +1,7 @@
 package exec
 
 import (
+	"strings"
 	"fmt"
 	"regexp"
 	"sort"
@@ -93,6 +94,9 @@ func checkFullWith(c *Case, prop string, compute func(n *hx.Node, fd *hx.Field, 
 		return
 	}
 	x := &hx.Exec{S: c.Schema, G: c.Graph, D: c.Doc, Faults: c.Faults, Echo: c.Echo, Compute: compute}
+	if c.Universe {
+		x.ComputeFault = UniverseFault
+	}
 	exp = x.Run(c.Op, c.VarMap())
 	var text string
 	var pan interface{}
@@ -178,6 +182,15 @@ func checkFullWith(c *Case, prop string, compute func(n *hx.Node, fd *hx.Field, 
 	}
 	sort.Strings(keys)
 	for _, k := range keys {
+		discarded := false
+		for _, pre := range exp.Nulled {
+			if strings.HasPrefix(k, pre) {
+				discarded = true
+			}
+		}
+		if discarded {
+			continue
+		}
 		min := 0
 		if needMax[k] > 0 {
 			min = 1
